@@ -2105,6 +2105,101 @@ func c18GenHist(tier string, rng *rand.Rand, emit func(interface{})) {
 	}
 }
 
+// c18DeepSpine: a spine s_0 -> s_1 -> ... of the given depth (so the depth-first walk is that
+// deep: beyond 2^14, 2^15, 2^16 nodes of recursion) whose nodes at many depths - densely around
+// the powers of two, and every few hundred nodes - carry a BRANCH WITH A CROSS EDGE: the spine node
+// has two unvisited successors a, b and b is also reachable from a, so that a walk that marks
+// nodes when they are pushed on an explicit stack (instead of when they are visited) emits b's
+// region in the wrong position.  Three gadget shapes, plus back edges into the spine (cycles):
+//
+//	A: s_i -> [a, s_{i+1}], a -> [s_{i+1}, c]              (c is visited after the whole rest)
+//	B: s_i -> [a, b], a -> [c, b], c -> [b], b -> [s_{i+1}]
+//	C: s_i -> [s_{i+1}, a], a -> [s_{i+2}, c], c -> [s_j] for some j < i (a back edge)
+//
+// relabel: 0 identity, 1 reversed, 2 random permutation.  Returns the graph and the id of s_0.
+func c18DeepSpine(rng *rand.Rand, depth, relabel int) ([][]int, int) {
+	type edge struct{ u, v int }
+	var es []edge
+	n := depth // spine nodes are 0..depth-1; gadget nodes are appended
+	fresh := func() int { n++; return n - 1 }
+	gadget := map[int]bool{1: true, 100: true}
+	for _, p := range []int{1 << 10, 1 << 14, 1 << 15, 1 << 16} {
+		for d := -3; d <= 6; d++ {
+			gadget[p+d] = true
+		}
+	}
+	for i := 0; i < depth; i += 200 + rng.Intn(600) {
+		gadget[i] = true
+	}
+	for i := 0; i+1 < depth; i++ {
+		if !gadget[i] || i+2 >= depth {
+			es = append(es, edge{i, i + 1})
+			continue
+		}
+		switch rng.Intn(3) {
+		case 0:
+			a, c := fresh(), fresh()
+			es = append(es, edge{i, a}, edge{i, i + 1}, edge{a, i + 1}, edge{a, c})
+		case 1:
+			a, b, c := fresh(), fresh(), fresh()
+			es = append(es, edge{i, a}, edge{i, b}, edge{a, c}, edge{a, b}, edge{c, b}, edge{b, i + 1})
+		default:
+			a, c := fresh(), fresh()
+			es = append(es, edge{i, i + 1}, edge{i, a}, edge{a, i + 2}, edge{a, c}, edge{c, rng.Intn(i + 1)})
+		}
+	}
+	perm := make([]int, n)
+	for i := range perm {
+		perm[i] = i
+	}
+	switch relabel {
+	case 1:
+		for i := range perm {
+			perm[i] = n - 1 - i
+		}
+	case 2:
+		rng.Shuffle(n, func(x, y int) { perm[x], perm[y] = perm[y], perm[x] })
+	}
+	g := make([][]int, n)
+	for i := range g {
+		g[i] = []int{}
+	}
+	for _, e := range es {
+		g[perm[e.u]] = append(g[perm[e.u]], perm[e.v])
+	}
+	return g, perm[0]
+}
+
+// deep graphs with branching and cross edges (seeded change C18-6: PreOrder finishing regions deeper
+// than 16384 with an explicit stack that marks at push time passed, because the deep graphs were
+// paths, cycles and trees only).  Quick: depth 17000 (beyond 2^14) for the traversals and SCC and
+// depth 34000 (beyond 2^15) for the traversals; thorough: 20000, 40000, 70000 (beyond 2^16) under
+// the three relabellings.
+func c18GenDeep(tier string, rng *rand.Rand, emit func(interface{})) {
+	type dc struct {
+		depth, relabel int
+		scc            bool
+	}
+	cs := []dc{{17000, 0, true}, {34000, 0, false}, {17000, 2, false}}
+	if tier == "thorough" {
+		cs = nil
+		for _, d := range []int{20000, 40000, 70000} {
+			for r := 0; r < 3; r++ {
+				cs = append(cs, dc{d, r, true})
+			}
+		}
+	}
+	k := 0
+	for _, c := range cs {
+		g, root := c18DeepSpine(rng, c.depth, c.relabel)
+		emit(c18Case{Op: 2, G: g, Roots: []int{root}})
+		if c.scc {
+			k++
+			emit(c18Case{Op: 3, G: g, Flags: []int{3, 1, 2, 0}[k%4]})
+		}
+	}
+}
+
 func c18Gen(tier string, rng *rand.Rand, emit func(interface{})) {
 	// debugging aid for mutation experiments only: VERIF_C18_OPS=1,6 runs just the cases of the listed operations
 	// (every case is still generated, so the random stream and the selected cases are those of the full run)
@@ -2129,6 +2224,7 @@ func c18Gen(tier string, rng *rand.Rand, emit func(interface{})) {
 	c18GenDot(tier, rng, emit)
 	c18GenExtra(tier, rng, emit)
 	c18GenHist(tier, rng, emit)
+	c18GenDeep(tier, rng, emit) // last: the random stream of everything before it is unchanged
 }
 
 func init() { register(&Prop{ID: "C18", Num: 18, Gen: c18Gen, Run: c18Run}) }
